@@ -34,8 +34,11 @@ ORDER = {"not_submitted": 0, "submitted": 1, "done": 2}
 
 
 def strategy(tier):
+    # a fifth of the submissions use multi-node batches (#SBATCH --nodes=2/3): srun starts run-jobs on every node of the
+    # allocation, each node runs the batch's commands and its own try-submit-jobs, only node 0 records results
+    scn = st.tuples(gen.scenarios(), st.sampled_from([1, 1, 1, 1, 2, 2, 3])).map(lambda t: dict(t[0], nodes=t[1]))
     return st.fixed_dictionaries({
-        "scn": gen.scenarios(),
+        "scn": scn,
         "schedule": gen.schedules(),
         "user": st.lists(st.sampled_from(["try", "show", "cancel", "try"]), max_size=3),
         "resubmit": st.one_of(st.none(), st.fixed_dictionaries({
